@@ -77,18 +77,25 @@ package flate
 //@   loop 5 invariant -1 <= rangeindex && rangeindex < size && 0 <= size && size <= 8 && size <= len(input) && 0 <= atentry(bitsLen) && 8*size <= 64 - int(atentry(bitsLen)) && bitsLen == atentry(bitsLen) + int32(8*(rangeindex+1))
 //@   loop 6 invariant -1 <= rangeindex && rangeindex < size && 0 <= size && size <= 8 && size <= len(input) && 0 <= atentry(bitsLen) && 8*size <= 64 - int(atentry(bitsLen)) && bitsLen == atentry(bitsLen) + int32(8*(rangeindex+1))
 
+// asmErrno: the status the assembly decoder returned last; asmCalls: calls of it made by decodeHuffman itself
+//@ ghost global asmErrno int
+//@ ghost global asmCalls int
+
 //@ func decodeHuffmanAsmArchV3
 //@   trusted "assembly (decode_amd64.s): the set of errno values is established by the asmreturns dataflow; everything else about the routine is assumed"
 //@   asmreturns errno in 0 1 2 -1 -2 -3 except 1
 //@   requires state != nil && stBase(state) && state.bitsLen >= 0 && 0 <= offset && offset <= len(output) && len(state.input) >= 8 && cap(output) >= len(output) + 274 && tabsOK(state)
-//@   modifies state.bits, state.bitsLen, state.input, state.writeOverflowLits, state.writeOverflowLen, state.copyOverflowLength, state.copyOverflowDistance, output[:len(output)+274][*]
+//@   modifies state.bits, state.bitsLen, state.input, state.writeOverflowLits, state.writeOverflowLen, state.copyOverflowLength, state.copyOverflowDistance, output[:len(output)+274][*], asmErrno
+//@   ensures asmErrno == errno
 //@   ensures offset <= written && written <= len(output) + 274
 //@   ensures 0 <= state.bitsLen && state.bitsLen <= 64 && len(state.input) <= old(len(state.input)) && sameobj(state.input, old(state.input)) && state.input != nil && remBits(state) <= old(remBits(state))
 //@   ensures state.writeOverflowLen == 0 && state.copyOverflowLength == 0
 
 //@ func decodeHuffman
 //@   requires dhPre(state, output, written)
-//@   modifies state.bits, state.bitsLen, state.input, state.phase, state.writeOverflowLits, state.writeOverflowLen, state.copyOverflowLength, state.copyOverflowDistance, output[*]
+//@   modifies state.bits, state.bitsLen, state.input, state.phase, state.writeOverflowLits, state.writeOverflowLen, state.copyOverflowLength, state.copyOverflowDistance, output[*], asmErrno, asmCalls
+//@   counts call decodeHuffmanAsmArchV3 as asmCalls
+//@   ensures[C03 C18 asm-errors-stop] asmCalls != old(asmCalls) ==> (asmErrno == -1 ==> err == errInvalidBlock) && (asmErrno == -2 ==> err == errInvalidSymbol) && (asmErrno == -3 ==> err == errInvalidLookBack) && (asmErrno == 2 ==> err == errOutputOverflow)
 //@   ensures[C03 classify] err == nil || err == errEndInput || err == errOutputOverflow || err == errInvalidSymbol || err == errInvalidLookBack || err == errInvalidBlock
 //@   ensures[C02 C03 written] written <= w && w <= len(output)
 //@   ensures[C02 C18 phase] err == nil ==> (state.bfinal == 1 ==> state.phase == phaseStreamEnd) && (state.bfinal != 1 ==> state.phase == phaseNewBlock)
@@ -108,7 +115,7 @@ package flate
 
 //@ func (*decompressor).decomperss
 //@   requires rdBasic(f) && inflOK(&f.state) && f.state.input != nil && f.writePos == f.readPos && f.readPos < 65536 && f.state.phase != phaseFinish
-//@   modifies f.state, f.writePos, f.historyBuffer
+//@   modifies f.state, f.writePos, f.historyBuffer, asmErrno, asmCalls
 //@   ensures[C03 C04 pos] f.readPos <= f.writePos && f.writePos <= 65797 && same(f.readPos)
 //@   ensures[C02 C03 tables] tabsOK(&f.state)
 //@   ensures[C03 classify] err == nil || isSentinel(err)
@@ -122,7 +129,7 @@ package flate
 
 //@ func (*decompressor).step
 //@   requires rdOK(f) && f.writePos == f.readPos && f.err == nil
-//@   modifies f.state, f.writePos, f.readPos, f.historyBuffer, f.peekSize, f.eof, f.needInput, *f.rBuf, extReads, peekErr
+//@   modifies f.state, f.writePos, f.readPos, f.historyBuffer, f.peekSize, f.eof, f.needInput, *f.rBuf, extReads, peekErr, asmErrno, asmCalls
 //@   ensures[C03 C04 inv] rdBasic(f) && f.readPos <= f.writePos && (err == nil ==> inflOK(&f.state) && inputOK(f))
 //@   assert call rOffset 1 [C11 need-iff-starved] f.needInput == (err == errEndInput)
 //@   ensures[C11 no-demand] !old(f.needInput) && old(f.state.input) == nil && int(old(f.state.bitsLen)/8) <= old(f.rBuf.buffered) ==> extReads == old(extReads)
@@ -134,7 +141,7 @@ package flate
 
 //@ func (*decompressor).Read
 //@   requires rdOK(f)
-//@   modifies b[*], f.err, f.state, f.writePos, f.readPos, f.historyBuffer, f.peekSize, f.eof, f.needInput, *f.rBuf, extReads, peekErr
+//@   modifies b[*], f.err, f.state, f.writePos, f.readPos, f.historyBuffer, f.peekSize, f.eof, f.needInput, *f.rBuf, extReads, peekErr, asmErrno, asmCalls
 //@   ensures[C03 C04 inv] rdOK(f)
 //@   ensures[C04 deliver] 0 <= n && n <= len(b)
 //@   ensures[C04 deliver-pending] old(f.writePos) > old(f.readPos) ==> n == (len(b) < old(f.writePos - f.readPos) ? len(b) : old(f.writePos - f.readPos)) && f.readPos == old(f.readPos) + n && same(f.writePos) && same(f.historyBuffer) && extReads == old(extReads)
@@ -180,6 +187,8 @@ package flate
 //@   modifies state.litLenTable, state.distTable, state.phase
 //@   ensures[C02 btype] state.phase == phaseHeaderDecoded
 //@   ensures[C02 C03 tables] tabsOK(state)
+//@   ensures[C02 C13 static-tables] (forall k :: 0 <= k && k < 4096 ==> state.litLenTable.shortCodeLookup[k] == staticLitHuffCode.shortCodeLookup[k]) && (forall k :: 0 <= k && k < 1264 ==> state.litLenTable.longCodeLookup[k] == staticLitHuffCode.longCodeLookup[k])
+//@   ensures[C02 C13 static-tables] (forall k :: 0 <= k && k < 1024 ==> state.distTable.ShortCodeLookup[k] == staticDistHuffCode.ShortCodeLookup[k]) && (forall k :: 0 <= k && k < 80 ==> state.distTable.LongCodeLookup[k] == staticDistHuffCode.LongCodeLookup[k])
 
 // clcOK: the code length code has codes of at most 7 bits, so its table has no long-code entries.
 //@ pure clcOK(t *smallHuffCodeTable) bool = forall j :: 0 <= j && j < 1024 ==> t.ShortCodeLookup[j] & smallFlagBit == 0 && t.ShortCodeLookup[j]>>11 <= 7
